@@ -245,8 +245,9 @@ CLAIMED = {
         'atomicity/append-only invariants, reference serializer on the '
         'accepted calls',
         'All call sequences over the 5 writer operations up to length 8 '
-        '(quick) / 10 (thorough) and over 10 valid + 13 invalid-argument '
-        'variants up to length 4 / 5 are run against the real writer and an '
+        '(quick) / 10 (thorough) and over 10 valid + 47 invalid-argument '
+        'variants + 8 codec names no header can carry (refused atomically '
+        'or accepted and readable) up to length 3 / 4 are run against the real writer and an '
         'independent model; Hypothesis sequences up to length 40 with '
         'generated arguments beyond. Exhaustive up to the bound only.',
         'Trusted: dxv/spec.py (table with the two documented errata, '
